@@ -31,6 +31,7 @@ RULE = (
     "Assembler.Result equals that of the whole text. non-trivial = the "
     "deciding comparison ran; distinct = (workload, config, shape)."
 )
+RULE += " Every undef case also probes a module symbol with an assembler-private name (.Lname): text that refers to it binds to the module's object (strict/allowing, with/without temp suffix), no second symbol."
 ASSUMPTIONS = [
     "result canonicalisation covers what reaches the IR: section bytes, blocks, CFG, symbols, expressions and sizes, alignment, block types, CFI directive table; the number of implicit CFI procedure objects is representation",
 ]
